@@ -99,6 +99,8 @@ struct desc {
     bool flowdef_passthrough;   /* get_flow_def returns the definition that was set */
     /* payload generator for pipes that parse their input (generic oracles only) */
     size_t (*gen_payload)(struct st *, uint8_t *buf, size_t max, struct uref *u_attrs);
+    /* allocator for pipes that are not allocated with upipe_void_alloc */
+    struct upipe *(*alloc)(struct st *, struct upipe_mgr *, struct uprobe *);
 };
 
 /* numeric option with a getter and a setter */
@@ -431,6 +433,24 @@ static void ctl_nopt(struct st *s)
     } else VH_COUNT("c20.setter_rejected");
 }
 
+/* queue sink + queue source in one thread: the data path under test is
+ * qsink -> uqueue -> qsrc -> sink 3; the generic set_output() calls only move the
+ * pseudo-output pointer of the queue sink */
+static struct upipe *alloc_qsink(struct st *s, struct upipe_mgr *mgr, struct uprobe *probe)
+{
+    struct upipe_mgr *qm = upipe_qsrc_mgr_alloc();
+    unsigned len = 1 + vh_below(R, 4);
+    s->subs[0] = upipe_qsrc_alloc(qm, lab_probe_new("qsrc", &s->sub_ids[0]), len);
+    upipe_mgr_release(qm);
+    if (!s->subs[0]) return NULL;
+    s->nsubs = 1;
+    s->sub_out[0] = 3;
+    lab_ev(EV_DRIVER, 8 /* D_SUB_SET_OUTPUT */, s->sink_ids[3], s->sub_ids[0], 0, NULL, "");
+    upipe_set_output(s->subs[0], s->sinks[3]);
+    vh_tr("qsrc length %u", len);
+    return upipe_qsink_alloc(mgr, probe, s->subs[0]);
+}
+
 static const struct desc catalogue[] = {
     { "idem", upipe_idem_mgr_alloc, K_IDENTITY, "block.", NULL, NULL, NULL, x_identity, false, false, NULL, 0, true },
     { "null", upipe_null_mgr_alloc, K_SINK, "block.", NULL, NULL, NULL, NULL, false, false, NULL, 0, false },
@@ -465,6 +485,7 @@ static const struct desc catalogue[] = {
     { "ts_pes_decaps", upipe_ts_pesd_mgr_alloc, K_OTHER, "block.mpegtspes.", "block.", NULL, NULL, NULL, true, false, NULL, 0, false, gen_pes_payload },
     { "ts_psi_merge", upipe_ts_psim_mgr_alloc, K_OTHER, "block.mpegtspsi.", "block.", NULL, NULL, NULL, true, false, NULL, 0, false, gen_psi_payload },
     { "h264_framer", upipe_h264f_mgr_alloc, K_OTHER, "block.h264.pic.", "pic.", NULL, NULL, NULL, true, false, NULL, 0, false, gen_annexb },
+    { "qsink", upipe_qsink_mgr_alloc, K_HOLD, "block.", NULL, NULL, ctl_nopt, x_identity, false, true, opts_maxlen, 1, false, NULL, alloc_qsink },
     { "h265_framer", upipe_h265f_mgr_alloc, K_OTHER, "block.hevc.pic.", "pic.", NULL, NULL, NULL, true, false, NULL, 0, false, gen_annexb },
 };
 #define NCAT (int)(sizeof(catalogue) / sizeof(catalogue[0]))
@@ -1078,11 +1099,12 @@ static void exec_history(uint64_t seed, bool getters, struct hist_out *out)
     vh_tr("pipe=%s pool_depth=%d getters=%d", s->d->name, depth, getters);
     if (!getters || mode != MODE_C20) vh_count_dyn("pipe.%s", s->d->name);
 
+    for (int k = 0; k < 4; k++) { char nm[16]; snprintf(nm, sizeof(nm), "sink%d", k); s->sinks[k] = lab_sink_new(nm, &s->sink_ids[k]); s->sink_accept[k] = true; }
     struct upipe_mgr *mgr = s->d->mgr_alloc();
-    s->pipe = upipe_void_alloc(mgr, lab_probe_new(s->d->name, &s->pipe_id));
+    struct uprobe *pr = lab_probe_new(s->d->name, &s->pipe_id);
+    s->pipe = s->d->alloc ? s->d->alloc(s, mgr, pr) : upipe_void_alloc(mgr, pr);
     upipe_mgr_release(mgr);
     if (!s->pipe) vh_violation("c04:alloc-failed", "allocation of %s failed", s->d->name);
-    for (int k = 0; k < 4; k++) { char nm[16]; snprintf(nm, sizeof(nm), "sink%d", k); s->sinks[k] = lab_sink_new(nm, &s->sink_ids[k]); s->sink_accept[k] = true; }
     src_pump = NULL;
     if (s->d->needs_loop) src_pump_open();
     if (s->d->setup) s->d->setup(s);
